@@ -6,7 +6,7 @@ UNITS = [fsutil.scandir_unit('C02')] + s3.list_units('C02') + b2.units('C02')[3:
          snapshot.worker_unit('C02'), snapshot.run_unit('C02')] + c18.units('C02')[:1] + snapbody.load_units('C02') + [snapshot.producer_unit('C02'), snapshot.chunk_done_unit('C02'), snapshot.tail_unit('C02')]
 from specs import families as _families
 UNITS = _families.with_families('C02', UNITS)
-BOUNDED = [{'name': 'C02.history', 'script': 'bounded/hist.py', 'timeout': 1200, 'args': {'prop': 'C02'}, 'bound': 'random histories of snapshot/delete/clean by owner, shared-key and independent-key users (and one unencrypted user): <= 10 operations, <= 4 paths per snapshot from 6 overlapping contents, chunks 8..64, 5 (thorough: 40) seeded histories per mode, each with one of three object lifetimes (a fresh Repository per command as the CLI does / one per user / ONE object re-unlocked with the key of whoever issues the next command); every remaining snapshot is restored by its owner after each destructive step; the commands use a snapshot cache per user / shared by all users / none (by history), the oracle reads the backend only; a scripted history deleting several snapshots in ONE call (two snapshots of unchanged data sharing chunks only with each other; two with distinct chunks, both name orders)'}]
+BOUNDED = [{'name': 'C02.history', 'script': 'bounded/hist.py', 'timeout': 1200, 'args': {'prop': 'C02'}, 'bound': 'random histories of snapshot/delete/clean by owner, shared-key and independent-key users (and one unencrypted user): <= 10 operations, <= 4 paths per snapshot from 6 overlapping contents, chunks 8..64, 5 (thorough: 40) seeded histories per mode, each with one of three object lifetimes (a fresh Repository per command as the CLI does / one per user / ONE object re-unlocked with the key of whoever issues the next command); every remaining snapshot is restored by its owner after each destructive step; the commands use a snapshot cache per user / shared by all users / none (by history), the oracle reads the backend only; a scripted history deleting several snapshots in ONE call (two snapshots of unchanged data sharing chunks only with each other; two with distinct chunks, both name orders); 21 (thorough: 45) snapshots then clean (references read without the loader); ONE transient I/O error while the local backend lists snapshots/ during a delete: fails with nothing removed, or completes exactly'}]
 TRUSTED = [
     'vf symbolic executor (/verif/vf): encoding of the Python subset (DESIGN 2.2)',
     'z3 5.1 (API + z3-new CLI), cvc5 1.0.3 (strings)',
